@@ -622,7 +622,17 @@ func TestC08(t *testing.T) {
 			spB = &filtered{inner: spB.(*RapidSpeller), avoid: avoid}
 		}
 		b := renderWith(p, spB, rt, "lb", avoid)
+		longLine := false
+		if rapid.IntRange(0, 11).Draw(rt, "long_comment_line") == 0 {
+			// a comment line longer than the usual line buffers (64 KiB) in front of the text
+			b = "// " + strings.Repeat("-", rapid.SampledFrom([]int{65536, 70000, 200000}).Draw(rt, "long_line_len")) + "\n" + b
+			longLine = true
+			c.Class("comment-line-longer-than-64KiB")
+		}
 		rew := usedKinds(ub)
+		if longLine {
+			rew = append(rew, "longline")
+		}
 		for _, x := range usedKinds(ua) {
 			if !contains(rew, x) {
 				rew = append(rew, x)
